@@ -47,6 +47,8 @@ def e1_cases(tier, seed):
                            common.batch_seq_algs)
     out += common.add_algs(common.zero_comp_scope(lvl),
                            lambda c: common.shipped(c, lvl, "diag"))
+    out += common.add_algs(common.zero_demand_scope(lvl), lambda c: [{"kind": "queue"}, {"kind": "batch", "p": 1, "min": 1}],
+                           feasible_only=False)
     out += common.add_algs(common.wide_scope(lvl),
                            lambda c: common.wide_algs(c, lvl))
     return common.rotate(out, seed)
